@@ -188,7 +188,17 @@ func (r *Recorder) tainted(n *Node, cause string, relevant ...string) string {
 }
 
 func (r *Recorder) violate(prop, kind, cause, format string, args ...interface{}) {
-	if prop == "C09" && r.anyTaint["F4"] && kind != "config-divergence" {
+	diverged := false
+	if prop == "C09" && kind == "config-step" {
+		// The committed sequence of configurations can only be trusted while the run has not split
+		// into two histories (which is what F4 produces).
+		for cl := range r.seenClass {
+			if strings.HasPrefix(cl, "C09/two-leaders") || strings.HasPrefix(cl, "C09/committed-divergence") || strings.HasPrefix(cl, "C09/truncated-committed") || strings.HasPrefix(cl, "C09/leader-incomplete") {
+				diverged = true
+			}
+		}
+	}
+	if prop == "C09" && r.anyTaint["F4"] && kind != "config-divergence" && (kind != "config-step" || diverged) {
 		// Known finding F4 (configurations two steps apart in force at once) was observed in
 		// this run: core safety violations attributed to C09 may be its consequence.
 		cause += "+F4"
@@ -632,8 +642,28 @@ func (r *Recorder) onNewLeader(inc *Incarnation, st raft.Status) {
 	r.ev("leader %s term=%d", inc.Name(), st.Term)
 	r.probe("leader-elected")
 	r.leaderFirstSeen = append(r.leaderFirstSeen, leaderSighting{Inc: inc, Term: st.Term, Seq: r.seq})
-	// C07: the new leader holds every entry committed so far.
 	m := n.Mirror
+	if conf, ok := r.c.configuration(inc); ok && r.c.Cfg.Membership {
+		// Signature of known finding F4: the node leads (and was elected) with a configuration
+		// in force that is older than a configuration entry in its own log, because followers
+		// adopt a configuration only when it is applied.
+		for i := len(m.Entries) - 1; i >= 1; i-- {
+			if m.Entries[i].Type == raft.ConfigurationEntry && !m.Entries[i].Placeholder {
+				if m.Entries[i].Index > conf.Index {
+					r.probe("leader-elected-with-stale-configuration-in-force")
+					if r.anyTaint == nil {
+						r.anyTaint = map[string]bool{}
+					}
+					if !r.anyTaint["F4"] {
+						r.anyTaint["F4"] = true
+						r.ev("taint * F4")
+					}
+				}
+				break
+			}
+		}
+	}
+	// C07: the new leader holds every entry committed so far.
 	missing := 0
 	for idx := m.first() + 1; idx <= r.RegMax; idx++ {
 		reg, ok := r.Reg[idx]
@@ -661,26 +691,6 @@ func (r *Recorder) onNewLeader(inc *Incarnation, st raft.Status) {
 	conf, ok := r.c.configuration(inc)
 	if !ok {
 		return
-	}
-	if r.c.Cfg.Membership {
-		// Signature of known finding F4: the node leads (and was elected) with a configuration
-		// in force that is older than a configuration entry in its own log, because followers
-		// adopt a configuration only when it is applied.
-		for i := len(m.Entries) - 1; i >= 1; i-- {
-			if m.Entries[i].Type == raft.ConfigurationEntry && !m.Entries[i].Placeholder {
-				if m.Entries[i].Index > conf.Index {
-					r.probe("leader-elected-with-stale-configuration-in-force")
-					if r.anyTaint == nil {
-						r.anyTaint = map[string]bool{}
-					}
-					if !r.anyTaint["F4"] {
-						r.anyTaint["F4"] = true
-						r.ev("taint * F4")
-					}
-				}
-				break
-			}
-		}
 	}
 	voters := 0
 	for _, v := range conf.IsVoter {
